@@ -2,6 +2,27 @@
 """Print the sensitivity table of DESIGN.md 11.5 from seeded/*/meta.json and the notes below."""
 import json, os
 desc = {
+ "C05e1":("dependency graph registers only 'relevant' tags: a tag consumed only by a decorator argument loses its edges","missed -> family shape: tag consumed only by a decorator argument"),
+ "C05e2":("merge de-duplicates decorators by tag+function, ignoring their arguments","missed -> family shape: one decorator function twice on a tag with different arguments"),
+ "C05e3":("default scopes resolved at compile time by a step wired before the decorators are compiled","caught"),
+ "C08e1":("dependency lists de-duplicated through a map before the graph is built (order of circular-dependency diagnostics)","missed -> cycle-web defect classes: several cycles meeting in a hub that mentions dependencies repeatedly"),
+ "C08e2":("duration of steps that took >= 1 s appended to the report","missed -> latency twin: file operations take simulated time"),
+ "C08e3":("build date in the version line rendered in local time","missed -> time zone per run ($TZ -> time.Local), release-like build info in the worlds"),
+ "C10e1":("a failed format leaves the unformatted source at an absent -o","caught"),
+ "C10e2":("'pattern matches nothing' warning written to stderr, also with --quiet","caught"),
+ "C10e3":("error list cut after 100 entries","caught"),
+ "C12e1":("up-to-date check reads -o before writing (never returns on a pipe or /dev/zero)","missed -> endless virtual devices as -o: an unbounded read is a hang"),
+ "C12e2":("YAML timestamps accepted as parameters; panic in argument positions","missed -> odd-scalar defect class (timestamps, binary, sets, merge keys, edge numbers)"),
+ "C12e3":("scope validation indexes services by pointer (nil dereference on an undefined reference)","caught"),
+ "C15e1":("chunker's quotation-mark state leaks outside %...% tokens","missed -> quotes, parentheses, backslashes in literal chunks"),
+ "C15e2":("meta.functions of a later file replaces the inherited table (built-in todo/env dropped)","caught"),
+ "C15e3":("default scopes resolved at compile time in the template (override with a contextual definition)","missed -> overriding definitions with a scope; model of the run-time determined default scope"),
+ "C19e1":("fixed temporary file name shared by concurrent runs in one directory","missed -> concurrent processes over one directory tree with seeded interleaving of their file operations"),
+ "C19e2":("--pkg flag whose default is $GOPACKAGE (go generate)","missed -> go-generate environment, env-read twin for the self-configuration"),
+ "C19e3":("Lstat+IsRegular filter drops symbolic links among the matches","missed -> linked configuration files"),
+ "C20e1":("scope validator does not look behind non_shared services","caught"),
+ "C20e2":("_concatenateChunks evaluates every chunk twice","missed -> function tokens inside multi-chunk patterns"),
+ "C20e3":("lazily built getter error prefixes with broken double-checked locking","missed -> fault injection in the reader workloads (failing getters under the scheduler)"),
  "C05a1":("scope validator mixes param/tag/service namespaces","missed -> cross-namespace name collisions generated"),
  "C05a2":("merge drops a scope declared in an earlier file","caught"),
  "C05a3":("Must<Getter>InContext calls the context-less getter","caught"),
